@@ -105,7 +105,7 @@ def finish(ctx, t0, seed, extract_info, explanation, not_decided, assumptions):
             print('KNOWN-FINDING: property=%s %s %s' % (ctx.prop, f.key, known_keys[f.key].get('what', f.msg)))
         else:
             unknown.append(f)
-    ev_dir = os.path.join(VERIF, 'evidence')
+    ev_dir = os.environ.get('SIMLINT_EVIDENCE_DIR') or os.path.join(VERIF, 'evidence')
     os.makedirs(ev_dir, exist_ok=True)
     obl = ctx.obligations
     sites = {(o['rule'], o['def_path'], o['instance']) for o in obl}
